@@ -188,6 +188,16 @@ def _judge(res: core.Res, spec: project.Spec, label: str, dump: Dict[str, Any], 
                 elif kind == 'mod':
                     modalias.add(ln)
         src = None
+        # names a star import may or may not bind depending on where the interpreter entered an import cycle: the star import's source
+        # module lies on a cycle of the import graph of the sources, so at run time it may have been only partly initialised
+        cyclic_star_names: Set[str] = set()
+        for it in imports:
+            if it.star_from and _reaches(graph, it.star_from, it.star_from):
+                srt = dump['modules'].get(it.star_from)
+                cyclic_star_names.update(n for n in (srt or {'ns': {}})['ns'] if not n.startswith('_'))
+                smod = system.allobjects.get(it.star_from)
+                if isinstance(smod, model.Module):
+                    cyclic_star_names.update(n for n in list(smod.contents) + list(smod._localNameToFullName_map) if not n.startswith('_'))
 
         def witness() -> Dict[str, Any]:
             return {'project': label, 'module': full, 'sources': project.sources(spec, seed=(seedkey, j))}
@@ -201,6 +211,9 @@ def _judge(res: core.Res, spec: project.Spec, label: str, dump: Dict[str, Any], 
                 return
             gotname = got.fullName() if got is not None else None
             if exp is None:
+                return
+            if name.split('.')[0] in cyclic_star_names and ctx is mod and got is not None and gotname != exp:
+                res.c('not_judged_star_import_from_cyclic_module')
                 return
             if got is not None and gotname != exp:
                 form = 'dotted' if '.' in name else 'plain'
